@@ -367,6 +367,7 @@ def run(ctx):
     rets = [o for o in outs if o.kind == "return"]
     # the lag window: correlating rx[:W] with the l-sample pattern in 'valid' mode searches the lags 0 .. W-l; every delay below one
     # pattern length (0 .. l-1) must be among them, i.e. W >= 2*l - 1 for every sps
+    lag_window = None
     corr_calls = [r for r in it.calls if r.callee and r.callee.split(".")[-1] in ("fftconvolve", "correlate", "convolve") and len(r.args) >= 2]
     mode = corr_calls[0].arg(2, "mode") if len(corr_calls) == 1 else None
     if len(corr_calls) == 1 and isinstance(mode, Const) and mode.v == "valid":
@@ -383,11 +384,9 @@ def run(ctx):
                     L = cand
         if wa is not None and wa[0] == "idx" and isinstance(wa[2], SliceV) and isinstance(wa[2].hi, Form) and L is not None \
                 and (isinstance(wa[2].lo, Const) and wa[2].lo.v is None or (isinstance(wa[2].lo, Form) and wa[2].lo.is_zero())):
-            def unint(a):
-                if a[0] == "fn" and a[1] == "int" and len(a[2]) == 1 and isinstance(a[2][0], Form):
-                    return a[2][0].subst(unint)          # lengths are integers already
-                return None
+            unint = _unint
             D = wa[2].hi.subst(unint) - 2 * L.subst(unint)
+            lag_window = (wa[2].hi.subst(unint), L.subst(unint))
             vals = []
             for sp in (1, 2, 16):
                 d_ = D.subst(lambda a, sp=sp: Form.num(sp) if a == ("sym", "sps") else None)
@@ -408,6 +407,26 @@ def run(ctx):
             ia = ia[2][0].single_atom() if isinstance(ia[2][0], Form) else None       # int(np.argmax(...)): the same index as a Python int
         ok_i = ia is not None and ia[0] == "fn" and ia[1] == "argmax"
         ctx.check("C20.5", ok_i, fs_, rets[0].node, f"SYNC: returned index = {idx!r}"[:160], "argmax of the correlation", "the returned index is not the argmax of the correlation")
+        # the candidates are the delays 0 .. l-1 and no more: on a repeated pattern lag l is the alignment of lag 0 one pattern later and
+        # ties with it, so with noise it wins about half the time - index l instead of 0, and nothing left of the record after it
+        if ok_i and lag_window is not None and ia[2] and isinstance(ia[2][0], Form):
+            W_, L_ = lag_window
+            oa = ia[2][0].single_atom()
+            if oa is not None and oa[0] == "idx" and isinstance(oa[2], SliceV) and isinstance(oa[2].hi, Form) \
+                    and (isinstance(oa[2].lo, Const) and oa[2].lo.v is None or (isinstance(oa[2].lo, Form) and oa[2].lo.is_zero())):
+                nl = oa[2].hi.subst(_unint)                    # argmax(corr[:m]): m candidates
+            else:
+                nl = W_ - L_ + 1                               # 'valid' mode: W - l + 1 lags
+            ex = []
+            for sp in (1, 2, 16):
+                d_ = (nl - L_).subst(lambda a, sp=sp: Form.num(sp) if a == ("sym", "sps") else None)
+                ex.append(d_.rational() if isinstance(d_, Form) else None)
+            if all(v is not None for v in ex):
+                ctx.check("C20.5", all(v <= 0 for v in ex), fs_, rets[0].node, "SYNC: candidate delays", "0 .. l-1 only",
+                          f"the search covers {nl!r} lags for a pattern of l = {L_!r} samples: lag l (the alignment of lag 0 one pattern later) is a candidate, ties with lag 0 on a repeated "
+                          "pattern and wins about half the time under noise - delay 0 is reported as l and the returned signal is empty")
+            else:
+                ctx.unknown("C20.5", fs_, rets[0].node, "SYNC: candidate delays", f"number of lags {nl!r} not comparable with the pattern length")
         d = sig.fields.get("signal") if isinstance(sig, ObjV) else None
         da = d.single_atom() if isinstance(d, Form) else None
         ok_s = da is not None and da[0] == "idx" and isinstance(da[2], SliceV) and da[2].lo == idx
@@ -419,6 +438,12 @@ def run(ctx):
     ctx.require_min("C20.3", 1)
     ctx.require_min("C20.4", 1)
     ctx.require_min("C20.5", 4)
+
+
+def _unint(a):
+    if a[0] == "fn" and a[1] == "int" and len(a[2]) == 1 and isinstance(a[2][0], Form):
+        return a[2][0].subst(_unint)          # lengths are integers already
+    return None
 
 
 def _offset_loop_framing(sd, loop, slots, defs, start_name):
